@@ -389,6 +389,13 @@ def writeChunks (oldCig oldChrom : Bool) (members : List Bytes) (k : Nat) : List
   | some (refs, body) =>
     [headerBytes d ++ ((readAllChunks oldCig oldChrom (refs.map Prod.fst) k body).map (·.2)).flatten, []]
 
+/-- `bnp.open(f).read_chunks(k)` on a BAM file given as BGZF members: the header is parsed first (same file object), the
+chunks come from the record area that follows it -/
+def readFileChunks (oldCig oldChrom : Bool) (members : List Bytes) (k : Nat) : Option (List (Bytes × Nat) × List (List DRec × Bytes)) :=
+  match parseHeader (gunzip members) with
+  | none => none
+  | some (refs, body) => some (refs, readAllChunks oldCig oldChrom (refs.map Prod.fst) k body)
+
 /-- the 28-byte BGZF end-of-file block of SAMv1 §4.1.2 -/
 def specEof : Bytes :=
   [31, 139, 8, 4, 0, 0, 0, 0, 0, 255, 6, 0, 66, 67, 2, 0, 27, 0, 3, 0, 0, 0, 0, 0, 0, 0, 0, 0]
